@@ -15,14 +15,14 @@ from ..own import Ownership
 from ..symx import Expander, TupleV, ref_eval
 from ..anf import R
 from .. import anf
-from .common import default_instance_obligations, struct_ob, formula_ob, guard, last_return, U
+from .common import memo_obligations, dtype_hazard_obligations, default_instance_obligations, struct_ob, formula_ob, guard, last_return, U
 from .C03 import ownership_obligations
 from ..report import AnalysisError
 from ..term import Resolver, pmatch, find_all, abstract, anf_of
 
 ACQ = "inference/gp/acquisition.py"
 OPT = "inference/gp/optimisation.py"
-FLOORS = {"components-not-shared": 1, "value-form": 4, "objective-siblings": 5, "gradient-is-derivative": 4, "bounds-passed": 3,
+FLOORS = {"float-arithmetic": 2, "components-not-shared": 1, "value-form": 4, "objective-siblings": 5, "gradient-is-derivative": 4, "bounds-passed": 3,
           "ownership": 5, "refit-order": 2,
           "tail-guard": 3}
 
@@ -293,6 +293,10 @@ def run(prog, tier):
                          f"{ {k: str(U(v)) for k, v in at_.items()} }", ACQ, ug.lineno))
 
     obs.extend(default_instance_obligations(prog, "components-not-shared", [('GpOptimiser', '__init__')]))
+
+    obs.extend(dtype_hazard_obligations(prog, "float-arithmetic", ['inference/gp/acquisition.py', 'inference/gp/optimisation.py']))
+
+    obs.extend(memo_obligations(prog, "cache-key", [prog.cls("AcquisitionFunction")] + prog.subclasses("AcquisitionFunction") + [prog.cls("GpOptimiser")]))
 
     meta = {
         "explanation": "Each acquisition method is expanded (both arms of the Z < -3 switch) to a normal form over mu, sigma and "
